@@ -88,7 +88,7 @@ def assigned_cells(ref, T):
 def compare_frame(res, key, m, data, ref, n, allowed_cells, allowed_periods, detail):
     """Only `allowed_cells` (endogenous) and status/iterations at `allowed_periods` may differ from the initial state."""
     for name in ref.names:
-        a, b = np.asarray(m[name]), data[name]
+        a, b = np.asarray(m.__dict__['_' + name]), data[name]      # (the series as stored)
         for i in range(n):
             if not same_value(a[i], b[i]) and (name, i) not in allowed_cells:
                 kind = ('endogenous' if name in ref.endogenous else 'exogenous' if name in ref.exogenous else 'parameter-or-error')
